@@ -446,7 +446,7 @@ impl Machine {
         self.nsteps += 1;
         let name = op.op.as_str();
         let (mut x, mut y) = (x, y);
-        let uses_o = name == "m_unsplit" || (name == "b_slice_ref" && op.mode == 3);
+        let uses_o = name == "m_unsplit" || name == "b_clone_from" || (name == "b_slice_ref" && op.mode == 3);
         if uses_o && (op.o == h || self.hs.get(op.o).map(|x| x.is_none()).unwrap_or(true)) {
             self.evno -= 1;
             return false;
@@ -626,6 +626,20 @@ impl Machine {
                         _ => unreachable!(),
                     };
                     newids.push(self.put(H::B(c)));
+                }
+                "b_clone_from" => {
+                    // Clone::clone_from: the target handle h becomes a clone of the handle o
+                    if op.o == h || !matches!(self.hs.get(op.o).and_then(|x| x.as_ref()), Some(H::B(_))) {
+                        return Err(());
+                    }
+                    let mut t = match self.hs[h].take().unwrap() {
+                        H::B(b) => b,
+                        _ => unreachable!(),
+                    };
+                    if let Some(H::B(s)) = self.hs[op.o].as_ref() {
+                        t.clone_from(s);
+                    }
+                    self.hs[h] = Some(H::B(t));
                 }
                 "b_slice" => {
                     let c = match self.hs[h].as_ref().unwrap() {
